@@ -295,7 +295,7 @@ def assemble(template_path, repo):
 
 
 RLIMIT_PAT = re.compile(r'[Rr]esource limit|rlimit')
-REFUTE_PAT = re.compile(r'postcondition not satisfied|precondition not satisfied|assertion failed|invariant not satisfied|possible arithmetic (under|over)flow|possible division by zero|index out of bounds|loop invariant|decreases not satisfied|unreachable|failed this|could not (prove|show)')
+REFUTE_PAT = re.compile(r'unable to prove post-condition of closure|postcondition not satisfied|precondition not satisfied|assertion failed|invariant not satisfied|possible arithmetic (under|over)flow|possible division by zero|index out of bounds|loop invariant|decreases not satisfied|unreachable|failed this|could not (prove|show)')
 
 
 def run_verus(path, rlimit=30, timeout=600, extra=None):
